@@ -294,6 +294,7 @@ func c02Newline(c *Ctx, p *Prog, m *Model) {
 	r.Check(okEnd, "R02.3", "PrintCtx.End", p.FuncPos(endFn), "End(true) appends '\\n' last in both JSON and text mode", detail)
 
 	// in every caller of a sink function: the payload argument
+	sevN := map[string]int{}
 	for sink := range m.SinkFns {
 		pi := -1
 		for i, prm := range sink.Params {
@@ -309,6 +310,23 @@ func c02Newline(c *Ctx, p *Prog, m *Model) {
 			caller := site.Parent()
 			arg := site.Common().Args[pi]
 			key := "payload:" + shortName(caller) + "->" + shortName(sink)
+			// the severity handed to the sink (which selects the destination) is the record's own: the level stored in
+			// the formatting context, or the caller's own level parameter - never the logger's threshold
+			for li, sp := range sink.Params {
+				if !m.isLevel(sp.Type()) {
+					continue
+				}
+				la := strip(site.Common().Args[li])
+				okLvl := false
+				if _, isRec := isFieldLoadOf(la, "PrintCtx", "lvl"); isRec {
+					okLvl = true
+				}
+				if prm, isP := la.(*ssa.Parameter); isP && prm.Parent() == caller {
+					okLvl = true
+				}
+				sevN[key]++
+				r.Check(okLvl, "R02.3", fmt.Sprintf("%s[severity#%d]", key, sevN[key]), p.Pos(instrPos(site)), "the destination is selected by the record's own severity", "the severity handed to the sink is "+m.valDesc(la)+", not the record's own: the record (or the blank line) goes to the destination of another severity")
+			}
 			switch a := arg.(type) {
 			case *ssa.Call:
 				if calleeOf(a) != bytesFn {
